@@ -17,7 +17,7 @@ use tyme4rs::tyme::enums::{HideHeavenStemType, Side, YinYang};
 use tyme4rs::tyme::lunar::LunarMonth;
 use tyme4rs::tyme::sixtycycle::{EarthBranch, HeavenStem, SixtyCycle};
 use tyme4rs::tyme::solar::SolarDay;
-use tyme4rs::tyme::Culture;
+use tyme4rs::tyme::{Culture, Tyme};
 
 const ELEMENTS: [&str; 5] = ["木", "火", "土", "金", "水"];
 
@@ -650,6 +650,16 @@ pub fn run(ctx: &Ctx) {
       }
       Err(m) => ctx.violation("fetus", format!("pillar {} foetus spirit", name), format!("panics: {}", m), vec!["all".into()]),
     }
+  }
+  // the day-object routes to the daily foetus spirit: 60 consecutive civil days (one per pillar) must give the pillar's own spirit
+  for k in 0..60usize {
+    let d = SolarDay::from_ymd(2024, 1, 1).next(k as isize);
+    let want = guard(|| FetusDay::new(d.get_lunar_day().get_sixty_cycle()).to_string());
+    expect!(ctx, l, "fetus", format!("{} LunarDay::get_fetus_day", d), Ok::<String, String>(d.get_lunar_day().get_fetus_day().to_string()), want.clone());
+    expect!(ctx, l, "fetus", format!("{} SixtyCycleDay::get_fetus_day", d), Ok::<String, String>(d.get_sixty_cycle_day().get_fetus_day().to_string()), want);
+  }
+  for m in 1..=12isize {
+    expect!(ctx, l, "fetus", format!("lunar month {} foetus spirit via LunarMonth::get_fetus", m), LunarMonth::from_ym(2023, m).get_fetus().map(|f| f.to_string()), Some(FETUS_MONTH[m as usize - 1].to_string()));
   }
   for m in 1..=12isize {
     expect!(ctx, l, "fetus", format!("lunar month {} foetus spirit", m), FetusMonth::from_lunar_month(LunarMonth::from_ym(2023, m)).map(|f| f.get_name()), Some(FETUS_MONTH[m as usize - 1].to_string()));
